@@ -70,6 +70,19 @@ def run(tier, argv):
                        "documents (valid, cut off, trailing garbage), an enum rule and a regex type; each step compared with the same call on fresh objects or with the "
                        "lexeme TLC computed for the document cursor; returned slices / ASTs / lists re-read at the end; "
                        "plus every history of %s operations over two roots that hold the same user-type object, one of which cannot be compiled, and every history of %s operations on the persistent documents alone" % (L, Ls, Ld))
+    # scenarios built from scratch again and again in one process: every map iteration is randomised, the result must not move
+    p = vlib.run_harness(hbin, ["c11fresh", "-reps", "150" if quick else "1500"], timeout=3000)
+    if p.returncode != 0:
+        raise vlib.Infra("c11fresh failed: " + p.stderr.decode()[-2000:])
+    fresh = [json.loads(l) for l in p.stdout.decode().split("\n") if l.strip()]
+    if not fresh:
+        raise vlib.Infra("c11fresh gave no scenario")
+    rep.notes["fresh_build_scenarios"] = [{"name": f["name"], "distinct_results": len(f["results"])} for f in fresh]
+    for f in fresh:
+        if len(f["results"]) > 1:
+            ks = sorted(f["results"], key=lambda k: -f["results"][k])
+            bad.append({"history": ["fresh build, repeated: " + f["name"]], "step": 0, "kind": "depends on map iteration", "want": "%s (%d times)" % (ks[0][:200], f["results"][ks[0]]),
+                        "got": "%s (%d times)" % (ks[1][:200], f["results"][ks[1]])})
     bad += maporder_stage(work, rep, hbin, quick)
     return rep, bad
 
